@@ -19,10 +19,32 @@ package authip
 //@   modifies i.HashMap.view
 //@   ensures[insert] forall k Ref :: i.HashMap.view[k] == (old(i.HashMap.view[k]) || k == box(key))
 
+//@ define inlist(l, s) = exists i int :: 0 <= i && i < len(l) && l[i] == s
+//@ define tracked(a) = (forall k Ref :: IpMap.HashMap.view[k] ==> (exists j int :: 0 <= j && j < len(a.listed) && k == box(a.listed[j])))
+//@     && (forall j int :: 0 <= j && j < len(a.listed) ==> IpMap.HashMap.view[box(a.listed[j])])
+
+//@ func contains
+//@   props C18
+//@   flags pure
+//@   ensures[contains] result == inlist(list, s)
+//@   loop 0
+//@     invariant 0 <= rangeindex + 1 && rangeindex + 1 <= len(list)
+//@     invariant forall i int :: 0 <= i && i <= rangeindex ==> list[i] != s
+
 //@ func AuthIp.parseAuthIp
 //@   props C18
+//@   requires tracked(a)
 //@   ensures[keep] result != nil ==> IpMap.enable == old(IpMap.enable) && (forall k Ref :: IpMap.HashMap.view[k] == old(IpMap.HashMap.view[k]))
 //@   ensures[enable] result == nil ==> IpMap.enable == (yaml_has_enable(curfile(a.name)) && yaml_enable(curfile(a.name)))
+//@   ensures[tracked] tracked(a)
 //@   ensures[exact] (result == nil && IpMap.enable) ==> (forall s string :: admitted(s) == (yaml_has_list(curfile(a.name)) && yaml_listed(curfile(a.name), s)))
 //@   loop 0
-//@     invariant 0 <= rangeindex + 1 && rangeindex + 1 <= len(auth.IpList)
+//@     modifies IpMap.HashMap.view
+//@     invariant 0 <= rangeindex + 1 && rangeindex + 1 <= len(a.listed)
+//@     invariant forall k Ref :: IpMap.HashMap.view[k] ==> (exists j int :: 0 <= j && j < len(a.listed) && k == box(a.listed[j]) && (j > rangeindex || inlist(auth.IpList, a.listed[j])))
+//@     invariant forall j int :: (0 <= j && j < len(a.listed) && inlist(auth.IpList, a.listed[j])) ==> IpMap.HashMap.view[box(a.listed[j])]
+//@   loop 1
+//@     modifies IpMap.HashMap.view
+//@     invariant 0 <= rangeindex#1 + 1 && rangeindex#1 + 1 <= len(auth.IpList)
+//@     invariant forall k Ref :: IpMap.HashMap.view[k] ==> ((exists j int :: 0 <= j && j < len(a.listed) && k == box(a.listed[j]) && inlist(auth.IpList, a.listed[j])) || (exists i int :: 0 <= i && i <= rangeindex#1 && k == box(auth.IpList[i])))
+//@     invariant forall i int :: (0 <= i && i <= rangeindex#1) ==> IpMap.HashMap.view[box(auth.IpList[i])]
